@@ -293,3 +293,50 @@ Proof.
   apply insert_sorted_stable; auto.
   intros y Hy. apply fold_insert_In in Hy. apply in_seq in Hy. lia.
 Qed.
+
+(* ---------------------------------------------------------------- column assignment, general form *)
+
+Lemma set_tags_other_cols : forall c c' prs w a, c' <> c -> get_col c' (tag_of (set_tags c prs w) a) = get_col c' (tag_of w a).
+Proof.
+  induction prs as [|[a0 t0] r]; simpl; intros; auto. rewrite IHr by auto. rewrite tag_of_set_cell_tag.
+  destruct (Nat.eqb a0 a) eqn:E; auto. apply Nat.eqb_eq in E. subst.
+  destruct (Nat.ltb a (length (heap w))) eqn:E2.
+  - apply set_col_get_other. auto.
+  - apply Nat.ltb_ge in E2. unfold tag_of. assert (nth_error (heap w) a = None) by (apply nth_error_None; auto). rewrite H0. auto.
+Qed.
+
+Lemma set_tags_functional : forall c prs w a t,
+  (forall t1 t2, In (a, t1) prs -> In (a, t2) prs -> t1 = t2) -> In (a, t) prs -> a < length (heap w) ->
+  get_col c (tag_of (set_tags c prs w) a) = t.
+Proof.
+  induction prs as [|[a0 t0] r]; simpl; intros w a t Hf Hin Hv; [tauto|].
+  assert (Hv' : a < length (heap (set_cell_tag a0 (set_col c t0) w))) by (unfold set_cell_tag; simpl; rewrite upd_nth_length; auto).
+  destruct (in_dec Nat.eq_dec a (map fst r)) as [Hr|Hr].
+  - apply in_map_iff in Hr. destruct Hr as [[a1 t1] [E1 H1]]. simpl in E1. subst a1.
+    assert (t1 = t) by (apply Hf; auto). subst. apply IHr; auto.
+  - destruct Hin as [Hin|Hin].
+    + inversion Hin; subst. rewrite set_tags_untouched by auto. rewrite tag_of_set_cell_tag, Nat.eqb_refl.
+      apply Nat.ltb_lt in Hv. rewrite Hv. apply set_col_get_same.
+    + exfalso. apply Hr. apply in_map_iff. exists (a, t). auto.
+Qed.
+
+(* s.<column> = one value (scalar, or a one-element sequence): every atom of the container reads the value back;
+   the other columns of every atom and all atoms outside the container are unchanged - also when the container
+   holds an atom twice *)
+Theorem setcol_broadcast_refines : forall h c t w old L, Inv w -> get_struct w h = Some (old, L) -> old <> [] ->
+  let w' := fst (step current (SetCol h c [t]) w) in
+  (forall a, In a old -> get_col c (tag_of w' a) = t) /\
+  (forall c' a, c' <> c -> get_col c' (tag_of w' a) = get_col c' (tag_of w a)) /\
+  (forall b, ~ In b old -> tag_of w' b = tag_of w b).
+Proof.
+  intros h c t w old L [Hwf _] Hg Hne w'. destruct (get_struct_wf _ _ _ _ Hwf Hg) as [Hold _].
+  assert (E : w' = set_tags c (map (fun a => (a, t)) old) w).
+  { unfold w'. cbn [step]. rewrite Hg. destruct old; [congruence|]. reflexivity. }
+  rewrite E. split; [|split].
+  - intros a Ha. apply set_tags_functional; auto.
+    + intros t1 t2 H1 H2. apply in_map_iff in H1. apply in_map_iff in H2.
+      destruct H1 as [x [E1 _]]. destruct H2 as [y [E2 _]]. inversion E1. inversion E2. congruence.
+    + apply in_map_iff. exists a. auto.
+  - intros. apply set_tags_other_cols. auto.
+  - intros b Hb. apply set_tags_untouched. rewrite map_map. simpl. rewrite map_id. auto.
+Qed.
